@@ -2,6 +2,8 @@ import P2PVerif.Model.Hub
 import P2PVerif.Model.Ask
 import P2PVerif.Lemmas.Hub
 import P2PVerif.Lemmas.Ask
+import P2PVerif.Model.Asker
+import P2PVerif.Lemmas.Asker
 /-! # C11 — an Ask returns its own handler's answer or an error, never another's
 Property theorems only: the AskHub rendezvous (shared by vswarm, p2pmux, mbapp's server side), the mbapp
 request/reply matching, and the length-prefixed frames of quicswarm.
@@ -41,5 +43,56 @@ theorem frame_roundtrip (payload rest : Bytes) (maxLen dstLen : Nat) (h : payloa
     non-zero error code, which `Ask` turns into an error. -/
 theorem negative_result_is_error (n : Int) (h : n < 0) : (Ask.extractErrorCode n).1 ≠ 0 := by
   simp [Ask.extractErrorCode, Int.not_le.mpr h]
+
+/-! ## mbapp: how a reply finds the ask it answers (`Model/Asker.lean`: asker.go, `Ask`, `handleAskReply`, `handleAskRequest`)
+
+`Asker.run` applies any sequence of asks, incoming replies (any source, counter, origin time, code and body: the
+network may delay, duplicate, reorder and replay, and other nodes may send what they like), context expiries and
+cancellations to one `mbapp.Swarm`. -/
+open P2PVerif.Mb in
+/-- ⊢ an Ask that returns anything but its context's error was completed by a reply that came from the address the
+    ask was sent to and carried exactly its counter and its origin time; what it returns is that reply's code and
+    body judged against the caller's buffer. -/
+theorem ask_completed_by_matching_reply (ops : List AOp) (tag : Nat) (r : AskRes)
+    (hr : (tag, r) ∈ (({} : Asker).run ops).results) (hne : r ≠ .ctx) :
+    ∃ id cap code body, (tag, id, cap) ∈ (({} : Asker).run ops).issued ∧
+      AOp.reply id.addr id.counter id.origin code body ∈ ops ∧ r = completeCap cap code body :=
+  Mb.ask_completed_by_matching_reply ops tag r hr hne
+
+open P2PVerif.Mb in
+/-- ⊢ the ids one swarm gives its asks are pairwise different (the counter only grows), so a reply matches at most
+    one of them, and a reply is consumed: delivering it a second time completes nothing. -/
+theorem ask_ids_distinct_and_replies_consumed (ops : List AOp) :
+    (((({} : Asker).run ops).issued.map (·.2.1)).Nodup) ∧
+    (((({} : Asker).run ops).inflight.map (·.id)).Nodup) ∧
+    (∀ src c o code body code' body',
+      let a := (({} : Asker).run ops).reply src c o code body
+      (a.reply src c o code' body').results = a.results ∧ (a.reply src c o code' body').inflight = a.inflight) :=
+  Mb.ask_ids_distinct_and_replies_consumed ops
+
+open P2PVerif.Mb in
+/-- ⊢ end to end: if every reply that reaches the asker was produced by the addressed node's handler for the request
+    with that counter and origin time (responders are honest and the transport authenticates the source; replies may
+    still be late, duplicated or meant for an earlier incarnation of the asker), and an id determines its request
+    (`reqOf`: no two requests ever sent to one node share counter and origin time — across restarts this is what
+    the origin time is for), then a successful Ask returns exactly the bytes the destination's handler produced for
+    the request of that very ask, and they fit the caller's buffer. `h node request` is the handler's return value
+    and what it wrote. -/
+theorem ask_returns_own_handler_output (ops : List AOp) (reqOf : AskId → Bytes) (h : Nat → Bytes → Int × Bytes)
+    (honest : ∀ src c o code body, AOp.reply src c o code body ∈ ops →
+        (c, o, code, body) = respond c o (h src (reqOf ⟨c, o, src⟩)).1 (h src (reqOf ⟨c, o, src⟩)).2)
+    (tag : Nat) (b : Bytes) (hr : (tag, AskRes.ok b) ∈ (({} : Asker).run ops).results) :
+    ∃ id cap, (tag, id, cap) ∈ (({} : Asker).run ops).issued ∧
+      0 ≤ (h id.addr (reqOf id)).1 ∧
+      b = (h id.addr (reqOf id)).2.take (h id.addr (reqOf id)).1.toNat ∧ b.length ≤ cap :=
+  Mb.ask_returns_own_handler_output ops reqOf h honest tag b hr
+
+open P2PVerif.Mb in
+/-- ⊢ a handler that signals failure never yields a success: its reply carries a non-zero code and the Ask that it
+    completes returns an application error. -/
+theorem failed_handler_is_an_error (cap c o : Nat) (n : Int) (out : Bytes) (hn : n < 0) :
+    let r := respond c o n out
+    r.2.2.1 > 0 ∧ ∀ b, completeCap cap r.2.2.1 r.2.2.2 ≠ .ok b :=
+  Mb.failed_handler_is_an_error cap c o n out hn
 
 end P2PVerif.C11
